@@ -126,7 +126,7 @@ TECH_ADD = {
  "C11": "; the caller comes back to the buffers/readers it attached between two renders",
  "C12": "; destinations that also implement Flush/WriteString/ReadFrom; file-system sources failing in Read",
  "C14": "; second connections that resume the TLS session of the first (ClientSessionCache), incl. the PLUS variants",
- "C15": "; server-final with the RFC 5802 server-error attribute instead of a signature",
+ "C15": "; server-final with the RFC 5802 server-error attribute instead of a signature; two exchanges of one mail.Client at a time, the peer of one replaying the other's server signature",
  "C16": "; logging configured through the Client setters, auth-data logging switched off again; SCRAM passwords the profile refuses (needles: alphanumeric stretches, robust against %q/JSON escaping)",
  "C18": "; long blank-free words with commas/semicolons/parentheses",
  "C20": "; errors.Is against a named step and SendError.MessageID",
